@@ -672,6 +672,9 @@ func (e *stageExec) do1(op []string) string {
 			if strings.Contains(err.Error(), "failed to open file") {
 				return "err-open"
 			}
+			if strings.Contains(err.Error(), "incomplete part") {
+				return "err-short"
+			}
 			return "err " + esc(err.Error())
 		}
 		return "ok"
@@ -715,6 +718,9 @@ func (e *stageExec) do1(op []string) string {
 		select {
 		case err := <-h.done:
 			if err != nil {
+				if strings.Contains(err.Error(), "incomplete part") {
+					return "err-short"
+				}
 				return "err " + esc(err.Error())
 			}
 		case <-time.After(20 * time.Second):
